@@ -14,9 +14,10 @@ pub fn run(args: &Args) -> i32 {
     let mut rng = Rng::new(args.seed);
     for k in ALL_KINDS {
         for v in VERSIONS {
-            for item_nulls in [false, true] {
-                for mode in [0u64, 1] {
-                    let d = Dist { mode, nullp: 30, item_nulls };
+            for (item_nulls, list_nulls) in [(false, true), (true, true), (true, false), (false, false)] {
+                for mode in [0u64, 1, 3] {
+                    let shared_dict = v == LanceFileVersion::Legacy || mode == 1 || args.rest.iter().any(|x| x == "shared");
+                    let d = Dist { mode, nullp: 30, item_nulls, list_nulls, shared_dict, no_empty_str: v == LanceFileVersion::Legacy, max_str: if args.rest.iter().any(|x| x == "wide") { 300 } else { 200 } };
                     let kinds = [k];
                     let mut start = 0i64;
                     let batches: Vec<RecordBatch> = [9usize, 0, 14]
@@ -49,9 +50,9 @@ pub fn run(args: &Args) -> i32 {
                             Err(e) => Err(format!("PANIC {}", if e.is_panic() { let p = e.into_panic(); p.downcast_ref::<String>().cloned().or(p.downcast_ref::<&str>().map(|s| s.to_string())).unwrap_or_default() } else { "cancel".into() }.chars().take(200).collect::<String>())),
                         }
                     });
-                    let tag = format!("{:?} {} item_nulls={} mode={}", k, v, item_nulls, mode);
+                    let tag = format!("{:?} {} item_nulls={} list_nulls={} mode={}", k, v, item_nulls, list_nulls, mode);
                     match res {
-                        Ok((got, frags)) => match diff_batches(&expected, &got, v) {
+                        Ok((got, frags)) => match diff_batches(&[expected.clone()], &expected.schema(), &got, v) {
                             None => println!("ok    {tag} frags={frags:?}"),
                             Some(dmsg) => println!("DIFF  {tag}: {dmsg}"),
                         },
@@ -60,6 +61,61 @@ pub fn run(args: &Args) -> i32 {
                 }
             }
         }
+    }
+    0
+}
+
+/// which column kinds can overwrite a legacy table with a 2.x storage version?
+pub fn run_overwrite(_args: &Args) -> i32 {
+    let rt = tokio::runtime::Builder::new_multi_thread().worker_threads(4).enable_all().build().unwrap();
+    let mut rng = Rng::new(3);
+    for from in [LanceFileVersion::Legacy, LanceFileVersion::V2_0] {
+        for v in VERSIONS {
+            let mut bad = vec![];
+            for k in ALL_KINDS {
+                let d = Dist { mode: 0, nullp: 0, item_nulls: false, list_nulls: false, shared_dict: true, no_empty_str: true, max_str: 50 };
+                let dir = tempfile::tempdir().unwrap();
+                let uri = dir.path().join("t.lance").to_str().unwrap().to_string();
+                let k0 = [Kind::I32];
+                let b0 = gen_batch(&k0, &mut rng, &d, 0, 5);
+                let kinds = [k];
+                let b1 = gen_batch(&kinds, &mut rng, &d, 0, 5);
+                let r: Result<(), String> = rt.block_on(async {
+                    let p0 = WriteParams { data_storage_version: Some(from), ..Default::default() };
+                    Dataset::write(RecordBatchIterator::new(vec![Ok(b0)], schema_of(&k0)), &uri, Some(p0)).await.map_err(|e| format!("create: {e}"))?;
+                    let p1 = WriteParams { data_storage_version: Some(v), mode: WriteMode::Overwrite, ..Default::default() };
+                    Dataset::write(RecordBatchIterator::new(vec![Ok(b1)], schema_of(&kinds)), &uri, Some(p1)).await.map_err(|e| e.to_string().chars().take(90).collect::<String>())?;
+                    Ok(())
+                });
+                if let Err(e) = r {
+                    bad.push(format!("{:?}: {}", k, e));
+                }
+            }
+            println!("{} -> {}: {} kinds rejected: {:?}", from, v, bad.len(), bad);
+        }
+    }
+    0
+}
+
+pub fn run_legacy(_args: &Args) -> i32 {
+    use arrow_array::{Array, ArrayRef, Int64Array, StringArray};
+    use std::sync::Arc;
+    let rt = tokio::runtime::Builder::new_multi_thread().worker_threads(2).enable_all().build().unwrap();
+    for vals in [vec![Some(""), Some("a"), None, Some("")], vec![Some(""), Some("a"), Some("b"), Some("")]] {
+        let kinds = [Kind::Utf8];
+        let ids: ArrayRef = Arc::new(Int64Array::from((0..vals.len() as i64).collect::<Vec<_>>()));
+        let sv: ArrayRef = Arc::new(StringArray::from(vals.clone()));
+        let b = RecordBatch::try_new(schema_of(&kinds), vec![ids, sv]).unwrap();
+        let dir = tempfile::tempdir().unwrap();
+        let uri = dir.path().join("t.lance").to_str().unwrap().to_string();
+        let got = rt.block_on(async {
+            let p0 = WriteParams { data_storage_version: Some(LanceFileVersion::Legacy), ..Default::default() };
+            let ds = Dataset::write(RecordBatchIterator::new(vec![Ok(b)], schema_of(&kinds)), &uri, Some(p0)).await.unwrap();
+            let got: Vec<RecordBatch> = ds.scan().try_into_stream().await.unwrap().try_collect().await.unwrap();
+            got
+        });
+        let a = got[0].column(1).as_any().downcast_ref::<StringArray>().unwrap();
+        println!("wrote {:?} read {:?}", vals, (0..a.len()).map(|i| if a.is_null(i) { None } else { Some(a.value(i).to_string()) }).collect::<Vec<_>>());
     }
     0
 }
